@@ -66,6 +66,12 @@ def work(args):
     desc = suitcases.perturb(desc, random.Random(f"{seed}:{index}:perturb"), extra)
     feats = sorted(set(feats) | extra)
     impl = suitcases.run_impl_create(desc, files)
+    if "ok" in impl and index % 4 in (1, 3) and big != "sized":
+        # the same description as a JSON / YAML *file* through the create command (the text forms rotate): the envelope is the same envelope
+        via = suitcases.run_cli_create(desc, files, "json" if index % 4 == 1 else "yaml")
+        if via != impl:
+            impl = via if "ok" in via else {"err": "through-a-" + ("json" if index % 4 == 1 else "yaml") + "-file:" + via.get("err", "?")}
+        feats = feats + ["via:" + ("json" if index % 4 == 1 else "yaml") + "-file"]
     model = suitio.model_create(drv, desc, files)
     out = {"hash": hashlib.sha1(json.dumps(desc, sort_keys=True, default=str).encode()).hexdigest(), "feats": feats, "scope": "in", "problems": [], "mismatch": None,
            "seed": seed, "index": index, "big": big}
